@@ -186,13 +186,13 @@ def decosOk (inCls : Bool) (decos : List Deco) : Bool :=
 
 /-- the side conditions of `static_eq_dynamic`, as a decidable predicate on the mini-AST:
     decorators as described; every branch that holds definitions is executed by the import; the
-    main guard is not executed and its `else` holds no definitions -/
+    guarded block of a main guard is not executed, its `else` branch is treated like any other branch -/
 def inFragment : Bool → Tree → Bool
   | _, .done => true
   | inCls, .func _ _ decos _ _ next => decosOk inCls decos && inFragment inCls next
   | inCls, .cls _ _ _ body next => (if inCls then true else inFragment true body) && inFragment inCls next
   | inCls, .ifs t r1 r2 body orelse next =>
-    (if isMainGuard t then !r1 && (if r2 then noDefs orelse else true)
+    (if isMainGuard t then !r1 && (if r2 then inFragment inCls orelse else noDefs orelse)
      else (if r1 then inFragment inCls body else noDefs body) &&
           (if r2 then inFragment inCls orelse else noDefs orelse)) && inFragment inCls next
   | inCls, .comp r body next => (if r then inFragment inCls body else noDefs body) && inFragment inCls next
